@@ -200,7 +200,6 @@ class MPC(nn.Module):
     def __init__(self, system, Q, p, T, stepper=None):
         super().__init__()
         self.stepper = ReduceToBason(steps=10) if stepper is None else stepper
-        self.stepper.max_steps -= 1 # n-1 loops, 1 loop with gradient
         self.lqr = LQR(system, Q, p, T)
 
     def forward(self, dt, x_init, u_init=None, u_lower=None, u_upper=None, du=None):
@@ -229,7 +228,8 @@ class MPC(nn.Module):
 
         self.stepper.reset()
         with torch.no_grad():
-            while self.stepper.continual():
+            # n-1 loops, 1 loop with gradient
+            while self.stepper.continual() and self.stepper.steps < self.stepper.max_steps - 1:
                 x, u, cost = self.lqr(x_init, dt, u)
                 self.stepper.step(cost)
 
